@@ -65,7 +65,7 @@ Variable store : ident -> lookup.
 Variable async_store : bool.
 Notation step := (step bname store async_store).
 Notation run := (run bname store async_store).
-Notation Good := (Good store async_store).
+Notation Good := (Good (srow store) async_store).
 
 Lemma pstep_IdsOK p s s' : pstep bname store async_store p s s' -> IdsOK s -> IdsOK s'.
 Proof.
